@@ -119,6 +119,14 @@ def check_c08(tier, seed, log=print):
                                                       what='the ambiguity error does not name the patterns that tie on the witness'),
                                   key='names|' + c['src'])
         elif v.startswith('FREE'):
+            # what the user sees: a tie-free definition of these families has no other reason to be refused (nullable patterns and
+            # definitions without a universal start state were set aside above; greedy dots, regex errors and non-UTF-8 patterns
+            # are recognised by their own diagnostics) - a refusal that none of them explains is a spurious ambiguity report
+            explained = [x for x in classes if x in ('greedy', 'regex_error', 'nonutf8', 'empty', 'nostart', 'undef_subpattern', 'variant_shape')]
+            if cap.verdict == 'REJECT' and not derive_amb and not explained:
+                run.violation('spurious-ambiguity', dict(definition=c['src'], derive_errors=cap.errs, closure=v,
+                                                         what='the derive refuses the definition although no string is matched by two top-priority patterns and nothing else is wrong with it'),
+                              key='spurious|' + c['src'])
             if derive_amb:
                 run.violation('spurious-ambiguity', dict(definition=c['src'], derive_errors=cap.errs, closure=v,
                                                          what='the derive reports an ambiguity but no string is matched by two top-priority patterns (tieFreeB_sound / tieFreeCBFast_sound)'),
@@ -402,14 +410,22 @@ def lexer_sig(cap):
             t = l.split(' ', 2)
             hirs[int(t[1])] = t[2] if len(t) > 2 else ''
     leaves = sorted((p, k, cb, nm, hirs.get(i, '')) for i, (p, k, cb, nm) in enumerate(cap.leaves))
-    return (cap.verdict, tuple(sorted(cap.errs)), tuple(leaves), cap.utf8)
+    # the part of the generated code that does not depend on leaf numbering: the impl header with the crate path, generics and
+    # the Error / Extras / Source types, and the error constructor (error callback)
+    head = mk = None
+    if cap.verdict == 'ACCEPT' and cap.codetext:
+        t = cap.codetext
+        head = t[:t.index('fn lex')] if 'fn lex' in t else t[:400]
+        if 'fn _make_error' in t and 'fn _get_action' in t:
+            mk = t[t.index('fn _make_error'):t.index('fn _get_action')]
+    return (cap.verdict, tuple(sorted(cap.errs)), tuple(leaves), cap.utf8, head, mk)
 
 
 def check_c18(tier, seed, log=print):
     run = start('C18', tier, seed)
     R = random.Random(seed)
     cases = F.fam_c18(R, 15 if tier == 'quick' else 15) + F.fam_c18_logos(R, 25 if tier == 'quick' else 200)
-    caps = P.run_capture([c['src'] for c in cases])
+    caps = P.run_capture([c['src'] for c in cases], code=True)
     # model answers for the argument lists
     lines = ['CASE m']
     for i, c in enumerate(cases):
